@@ -44,6 +44,11 @@ CLAIMS = {
    design_ref="DESIGN.md section 5 C01, section 8",
    note=COMMON_NOTE + "Assumes conf-qmail's file-system model (synchronous directory operations, data durable up to the last fsync, truncation durable); unsynced-data loss is covered by the theorem and by the oracle on observed fsync positions, not by physically losing data. Short writes and double faults are not injected. The Received: line is opaque.",
    technique="Coq proof (case analysis over fault plans, invariant at every event prefix, crash-image relation) + trace refinement of the real qmail-queue under an LD_PRELOAD interposer"),
+ "C12": dict(category="proof",
+   text="Theorems: for every content and fault plan, at every prefix of the maildir writer's events and every crash image, a name in new/ implies the file holds exactly Return-Path ++ Delivered-To ++ message, durable; success is reported iff the message became visible; with the lock held any failing write/read/fsync restores the mbox to its previous length and success appends exactly the entry; for every message (From_/>From_ lines, NUL, no final newline, empty) and sender text the mbox(5) reader splits and unquotes old ++ entry back to the old messages plus exactly the delivered message. Tied on every run to the real qmail-local under the interposer (single failing open/write/fsync/close/link, kills, forced same-name deliveries, a scheduled lock interleaving with an injected write error), with the extracted oracles and an independent Python mbox reader on the files produced.",
+   design_ref="DESIGN.md section 5 C12, section 8",
+   note=COMMON_NOTE + "Same file-system model as C01. Roll-back is promised only when the lock was obtained. General interleavings of several mbox writers rest on flock plus one scheduled interleaving; no interleaving theorem yet. myctime's date is opaque.",
+   technique="Coq proof (event-prefix invariant for the maildir writer, list-level round trip for the mbox reader) + trace refinement of the real qmail-local under an LD_PRELOAD interposer"),
 }
 
 REASON_PENDING = "not yet claimed: model/correspondence for this property is still being built (DESIGN.md section 7); no check is registered for it"
